@@ -15,8 +15,8 @@ import shutil
 from harness.adapters import fsisolation as ad
 from harness.core import Ctx, parallel_map
 
-PAR = {"a": "", "ag": "a", "an": "a", "g": "", "n": "", "ng": "n", "e": ""}
-BASE = {"a": "a", "ag": "g", "an": "n", "g": "g", "n": "n", "ng": "g", "e": "e"}
+PAR = {"a": "", "ag": "a", "an": "a", "g": "", "n": "", "ng": "n", "e": "", "eg": "e"}
+BASE = {"a": "a", "ag": "g", "an": "n", "g": "g", "n": "n", "ng": "g", "e": "e", "eg": "g"}
 OPWORD = {"OpenR": "open-read", "OpenW": "open-write", "OpenA": "open-append", "OpenX": "open-exclusive",
           "OpenRP": "open-update", "Mkdir": "mkdir", "MkdirOk": "mkdir-exist-ok", "Touch": "touch",
           "WriteText": "write-text", "Remove": "remove", "Rmdir": "rmdir", "Rmtree": "rmtree",
@@ -49,6 +49,8 @@ def _role(e: dict, x: str) -> str:
         return "-onto"
     if PAR[x] == e["q"] and BASE[x] == BASE[e["p"]]:
         return "-into-dir-onto"
+    if PAR[x] == e["q"]:
+        return "-below-dst"
     return "-other"
 
 
@@ -157,8 +159,16 @@ def execute(ctx: Ctx, behs: list[dict]) -> list[dict]:
             os.unlink(base)
 
 
+SLIM = ("op", "p", "q", "kw", "fl", "eo", "via", "res", "fs1", "cr1", "x1", "r1")
+
+
+def slim(tr: dict) -> dict:
+    """What TLC needs: the state before a call is the state after the previous one."""
+    return {"pre": tr["pre"], "ev": [{k: e[k] for k in SLIM} for e in tr["ev"]]}
+
+
 def judge(ctx: Ctx, behs: list[dict], traces: list[dict]) -> None:
-    verdicts = ctx.validate("FsIsolationTrace", traces, chunk=20000)
+    verdicts = ctx.validate("FsIsolationTrace", [slim(t) for t in traces], chunk=20000)
     seen: set[str] = set()
     drift_seen: set[str] = set()
     for idx, bad in sorted(verdicts.items()):
@@ -186,7 +196,7 @@ def judge(ctx: Ctx, behs: list[dict], traces: list[dict]) -> None:
 def run(ctx: Ctx) -> None:
     ctx.rule = ("case = one history of calls (open r/w/a/x/r+, os.open flags, mkdir, makedirs(exist_ok), "
                 "touch, write_text, rename, replace, copy*, copytree, move, remove, rmdir, rmtree; every "
-                "API variant, positional and keyword) enumerated by TLC from MC_FsIsolation over a 7-node "
+                "API variant, positional and keyword) enumerated by TLC from MC_FsIsolation over a 8-node "
                 "sandbox (pre-existing dir with file, file, empty dir; absent paths), executed in a real "
                 "temporary tree under the real FilesystemIsolation, followed by __exit__; non-trivial = "
                 "distinct (call, tree state, bookkeeping) whose call succeeded and changed the tree or "
@@ -200,18 +210,29 @@ def run(ctx: Ctx) -> None:
     thorough = not ctx.quick
     ctx.design("FsIsolation", "FsIsolation_thorough.cfg" if thorough else "FsIsolation.cfg")
     ctx.design("FsIsolation", "FsIsolation_asis_thorough.cfg" if thorough else "FsIsolation_asis.cfg")
-    cex = ctx.design("FsIsolation", "FsIsolation_asis_cex.cfg", expect_ok=False)
-    ctx.notes["asis_model_violates_Isolation"] = bool(cex.violations)
+    if thorough:  # sanity: the code-as-is model does exhibit the loss (TLC counterexample expected)
+        cex = ctx.design("FsIsolation", "FsIsolation_asis_cex.cfg", expect_ok=False)
+        if not cex.violations:
+            raise RuntimeError("code-as-is design model no longer violates Isolation: deviations fixed? "
+                               "update FsIsolationOps/known_findings.d/C29.json")
+        ctx.notes["asis_model_violates_Isolation"] = True
 
     behs = ctx.behaviours("MC_FsIsolation")
     n1 = len(behs)
-    d2 = ctx.behaviours("MC_FsIsolation", "MC_FsIsolation_d2.cfg" if ctx.quick else "MC_FsIsolation_d2_thorough.cfg")
-    ctx.notes["behaviours_depth2_enumerated"] = len(d2)
-    if ctx.quick:  # quick tier: a seeded sample of the enumerated two-call histories
-        d2 = ctx.rng("d2").sample(d2, min(len(d2), 4000))
+    if ctx.quick:   # two calls that both change the tree or the bookkeeping (canonical API variants)
+        d2 = ctx.behaviours("MC_FsIsolation", "MC_FsIsolation_d2_quick.cfg")
+    else:           # + any second call (canonical variants) + both-changing pairs over all API variants
+        seen_h = set()
+        d2 = []
+        for cfg in ("MC_FsIsolation_d2.cfg", "MC_FsIsolation_d2_thorough.cfg"):
+            for b in ctx.behaviours("MC_FsIsolation", cfg):
+                key = repr(b)
+                if key not in seen_h:
+                    seen_h.add(key)
+                    d2.append(b)
     behs += d2
     n2 = len(d2)
-    n_sim = 150 if ctx.quick else 3000
+    n_sim = 60 if ctx.quick else 2500
     for st in ctx.simulate("MC_FsIsolation", "MC_FsIsolation_sim.cfg", num=n_sim, depth=8):
         if st.get("hist"):
             behs.append({"hist": st["hist"]})
@@ -237,7 +258,7 @@ def run(ctx: Ctx) -> None:
 
 def replay(ctx: Ctx, rec: dict) -> int:
     traces = execute(ctx, [rec["behaviour"]])
-    verdicts = ctx.validate("FsIsolationTrace", traces)
+    verdicts = ctx.validate("FsIsolationTrace", [slim(t) for t in traces])
     print("replayed:", _describe(traces[0]))
     bad = [c for c, _ in verdicts.get(0, []) if c in VERDICT]
     if bad:
